@@ -15,18 +15,18 @@ import (
 
 // Specs holds every contract read from the contract files.
 type Specs struct {
-	Funcs        map[string]*FuncSpec
-	PanicClasses map[string]*Clause
-	SpecFuncs    map[string]*SpecFunc
-	Axioms       []*Clause
-	Files        []string
-	Errors       []string
-	TypeInvs     map[string][]*Clause // "pkg.Type" -> invariants over self (assumed whenever a reference is obtained)
-	ElemsNonNil  map[string]bool      // package name -> slice elements of its pointer/interface types are non-nil
-	DefaultOpaque map[string][]string // package name -> default props: functions without a block are opaque contracts
+	Funcs         map[string]*FuncSpec
+	PanicClasses  map[string]*Clause
+	SpecFuncs     map[string]*SpecFunc
+	Axioms        []*Clause
+	Files         []string
+	Errors        []string
+	TypeInvs      map[string][]*Clause         // "pkg.Type" -> invariants over self (assumed whenever a reference is obtained)
+	ElemsNonNil   map[string]bool              // package name -> slice elements of its pointer/interface types are non-nil
+	DefaultOpaque map[string][]string          // package name -> default props: functions without a block are opaque contracts
 	Symbols       map[string]map[string]string // package -> grammar symbol -> invariant over v (a yySymType)
 	invFieldCache map[string]map[string]bool
-	NeedVariants  map[string][]string // package -> props: loops need variants
+	NeedVariants  map[string][]string  // package -> props: loops need variants
 	Every         map[string]*FuncSpec // "pkg.(*T).*" -> clauses merged into every method's contract
 	everyMerged   map[*FuncSpec]bool
 }
